@@ -1,11 +1,14 @@
 #!/bin/sh
-# tools/try_seed.sh <patch.diff> <PROP> [tier]  -- apply a seeded change to /repo, run the check, undo.
+# tools/try_seed.sh <patch.diff> <PROP> [tier]
+# Apply a seeded change to a scratch worktree of /repo's HEAD (never to /repo itself), run the check against it
+# (OPENPINCH_REPO), write evidence/replays to a scratch directory (VERIF_OUT), remove both.
 set -u
-patch="$1"; prop="$2"; tier="${3:-quick}"
-cd /repo || exit 2
-git diff --quiet || { echo "/repo has local changes"; exit 2; }
-git apply "$patch" || { echo "patch does not apply"; exit 2; }
-cd /verif && ./check "$prop" --tier "$tier" > /tmp/try_seed.out 2>&1; rc=$?
-git -C /repo checkout -- .
-grep -E "VIOLATION|KNOWN|MACHINERY|^C[0-9]+ " /tmp/try_seed.out | cut -c1-400 | head -8
+patch="$(realpath "$1")"; prop="$2"; tier="${3:-quick}"
+wt=$(mktemp -d /tmp/seedwt.XXXXXX); out=$(mktemp -d /tmp/seedout.XXXXXX)
+git -C /repo worktree add --detach "$wt" HEAD >/dev/null 2>&1 || { echo "worktree failed"; exit 2; }
+git -C /repo diff HEAD | git -C "$wt" apply 2>/dev/null     # carry uncommitted /repo changes, if any
+git -C "$wt" apply "$patch" || { echo "patch does not apply"; git -C /repo worktree remove --force "$wt"; exit 2; }
+cd /verif && OPENPINCH_REPO="$wt" VERIF_OUT="$out" ./check "$prop" --tier "$tier" > "$out/log" 2>&1; rc=$?
+grep -E "VIOLATION|KNOWN|MACHINERY|^C[0-9]+ " "$out/log" | sed "s#$out#<scratch>#g" | cut -c1-300 | head -8
 echo "exit=$rc"
+git -C /repo worktree remove --force "$wt"; rm -rf "$out" "$wt"
